@@ -316,6 +316,23 @@ def load_known():
         return json.load(f)
 
 
+_QUAR = None
+
+
+def quarantined(name):
+    """Generator predicate: is this region kept out of random exploration
+    because a recorded known finding lives there?  (The stored replay of the
+    finding is still executed on every run.)"""
+    global _QUAR
+    if os.environ.get("VERIF_NO_QUARANTINE"):
+        return False
+    if _QUAR is None:
+        _QUAR = set()
+        for f in load_known().get("findings", []):
+            _QUAR.update(f.get("quarantine", []))
+    return name in _QUAR
+
+
 # ----------------------------------------------------------------------------
 # evidence
 
